@@ -5,7 +5,8 @@ bytes only.
 
 Time seam: `TimeSeam` installs one virtual clock (mc.vtime.VirtualTime, a full proxy of the `time` module whose
 time / time_ns / monotonic / perf_counter all read the same integer-nanosecond clock) as the attribute `time` of EVERY loaded
-basana module that imported the time module, whichever module the library reads the clock in. With `virtual_sleep=True` it also
+basana module that imported the time module (or one of its clock functions), whichever module the library reads the clock in
+and under whichever name. With `virtual_sleep=True` it also
 makes every sleep of the library advance that clock instead of waiting: `asyncio` attributes of the basana modules become a
 ModuleProxy with a virtual `sleep`, and `asyncio.sleep` itself is replaced, for callers that live in a basana module only, so
 that TokenBucketLimiter.wait() or a helper module sleeping on behalf of a client is virtual too. Nothing is looked up as
@@ -86,18 +87,26 @@ class TimeSeam:
         self.slept = 0.0          # virtual seconds slept by the library
         self._saved = []
         self._saved_global_sleep = None
+        clock_fns = {getattr(_real_time, n): getattr(self.vtime, n)
+                     for n in ("time", "time_ns", "monotonic", "monotonic_ns", "perf_counter", "perf_counter_ns")}
+        proxy = ModuleProxy(_real_asyncio, sleep=self._virtual_sleep) if virtual_sleep else None
         for mod in _basana_modules():
-            cur = getattr(mod, "time", None)
-            if cur is _real_time or isinstance(cur, VirtualTime):
-                self._saved.append((mod, "time", cur))
-                setattr(mod, "time", self.vtime)
+            for name, cur in list(vars(mod).items()):
+                new = None
+                if cur is _real_time or isinstance(cur, VirtualTime):
+                    new = self.vtime                      # import time
+                elif any(cur is fn for fn in clock_fns):
+                    new = clock_fns[cur]                  # from time import time / time_ns / ...
+                elif isinstance(getattr(cur, "__self__", None), VirtualTime) and hasattr(self.vtime, getattr(cur, "__name__", "")):
+                    new = getattr(self.vtime, cur.__name__)   # the same, already virtualised by an earlier seam
+                elif virtual_sleep and (cur is _real_asyncio or isinstance(cur, ModuleProxy)):
+                    new = proxy                           # import asyncio
+                elif virtual_sleep and cur is _REAL_SLEEP:
+                    new = self._virtual_sleep             # from asyncio import sleep
+                if new is not None:
+                    self._saved.append((mod, name, cur))
+                    setattr(mod, name, new)
         if virtual_sleep:
-            proxy = ModuleProxy(_real_asyncio, sleep=self._virtual_sleep)
-            for mod in _basana_modules():
-                cur = getattr(mod, "asyncio", None)
-                if cur is _real_asyncio or isinstance(cur, ModuleProxy):
-                    self._saved.append((mod, "asyncio", cur))
-                    setattr(mod, "asyncio", proxy)
             self._saved_global_sleep = _real_asyncio.sleep
             _real_asyncio.sleep = self._dispatching_sleep
 
